@@ -9,7 +9,7 @@ mod track;
 mod vecworld;
 mod wake;
 
-use runner::{evidence_json, minimise, run_batch, BatchCfg, Check, ReplayFile};
+use runner::{digest_batch, evidence_json, minimise, run_batch, BatchCfg, Check, ReplayFile};
 use std::cell::RefCell;
 use std::time::Duration;
 
@@ -325,6 +325,22 @@ fn main() {
             }
         }
         "replay" => replay(&a),
+        "digest" => {
+            // tasksim digest <FAMILY> --seed S --runs N --jobs J: determinism self-test support
+            let runs = a.runs.unwrap_or(20_000);
+            let d = match a.prop.as_str() {
+                "C07enum" => digest_batch(&vecworld::txenum::TxEnumCheck, a.seed, runs / 20, a.jobs),
+                "C16async" => digest_batch(&obsworld::acheck::AsyncCheck, a.seed, runs, a.jobs),
+                p if VEC_PROPS.contains(&p) => digest_batch(&vecworld::check::VecCheck { prop: p.into(), kf_retire: true }, a.seed, runs, a.jobs),
+                p if OBS_PROPS.contains(&p) => digest_batch(&obsworld::check::ObsCheck { prop: p.into() }, a.seed, runs, a.jobs),
+                p => {
+                    eprintln!("unknown family {p}");
+                    std::process::exit(2);
+                }
+            };
+            println!("{:016x}", d);
+            0
+        }
         "run-case" => {
             // debugging aid: tasksim run-case <world> <case.json>
             let text = std::fs::read_to_string(a.file.clone().unwrap_or_default()).unwrap_or_default();
